@@ -844,12 +844,16 @@ func opGrp(fails *[]string, prog string, batch bool) string {
 		cb := banderwagon.ElementsToBytes(valid...)
 		ub := banderwagon.BatchToBytesUncompressed(valid...)
 		maps := make([]*fr.Element, len(valid))
+		store := make([]fr.Element, len(valid)) // the caller's own result storage
 		for i := range maps {
-			maps[i] = new(fr.Element)
+			maps[i] = &store[i]
 			maps[i].SetUint64(uint64(0xDEAD0000 + i)) // a reused result buffer: never zero beforehand
 		}
 		err := banderwagon.BatchMapToScalarField(maps, valid)
 		assertf(fails, err == nil, "BatchMapToScalarField failed")
+		for i := range maps {
+			assertf(fails, maps[i] == &store[i], "BatchMapToScalarField re-pointed result slot %d instead of writing into it", i)
+		}
 		// stress repetitions (set by the concurrent modes): every repetition must reproduce the first result
 		for rep := 0; rep < batchRepeat; rep++ {
 			cb2 := banderwagon.ElementsToBytes(valid...)
@@ -881,6 +885,7 @@ func opGrp(fails *[]string, prog string, batch bool) string {
 			assertf(fails, cb[k] == sb, "ElementsToBytes[%d] != Bytes()", i)
 			assertf(fails, ub[k] == su, "BatchToBytesUncompressed[%d] != BytesUncompressedTrusted()", i)
 			assertf(fails, *maps[k] == sm, "BatchMapToScalarField[%d] != MapToScalarField()", i)
+			assertf(fails, store[k] == sm, "BatchMapToScalarField did not write the caller's storage of slot %d", i)
 			var t banderwagon.Element
 			err := t.SetBytesUncompressed(ub[k][:], true)
 			assertf(fails, err == nil && t.Equal(valid[k]), "trusted decode of the batch uncompressed encoding differs at %d", i)
@@ -1363,6 +1368,13 @@ func opSerde(fails *[]string, f []string, ipaOnly bool) string {
 		if err := p.Write(&out); err != nil {
 			return "err-write"
 		}
+		// the decoder reused for another proof: a copy of the first result stays what it was
+		first := p
+		if err := p.Read(bytes.NewReader(swapLR(out.Bytes(), 0))); err == nil {
+			var again bytes.Buffer
+			_ = first.Write(&again)
+			assertf(fails, bytes.Equal(again.Bytes(), out.Bytes()), "IPAProof.Read on a reused receiver changed the proof read before")
+		}
 		return "ok " + hx(out.Bytes()) + fmt.Sprintf(" %d", r.delivered)
 	}
 	var p multiproof.MultiProof
@@ -1378,6 +1390,14 @@ func opSerde(fails *[]string, f []string, ipaOnly bool) string {
 	var q multiproof.MultiProof
 	err := q.Read(bytes.NewReader(out.Bytes()))
 	assertf(fails, err == nil && q.Equal(p), "Read(Write(p)) != p")
+	// the decoder reused for another proof: a copy of the first result stays what it was
+	first := p
+	if err := p.Read(bytes.NewReader(swapLR(out.Bytes(), 32))); err == nil {
+		var again bytes.Buffer
+		_ = first.Write(&again)
+		assertf(fails, bytes.Equal(again.Bytes(), out.Bytes()), "MultiProof.Read on a reused receiver changed the proof read before")
+		_ = p.Read(bytes.NewReader(out.Bytes()))
+	}
 	// a writer failing at any of its calls must surface an error
 	total := &failingWriter{failAt: -1}
 	_ = p.Write(total)
@@ -1386,6 +1406,18 @@ func opSerde(fails *[]string, f []string, ipaOnly bool) string {
 		assertf(fails, p.Write(w) != nil, "Write ignored a writer failure at call %d", j)
 	}
 	return "ok " + hx(out.Bytes())
+}
+
+// swapLR returns a serialized proof with its L and R blocks (8 points each, starting at `off`) exchanged:
+// another well-formed proof of the same length
+func swapLR(b []byte, off int) []byte {
+	out := append([]byte(nil), b...)
+	if len(b) < off+512 {
+		return out
+	}
+	copy(out[off:off+256], b[off+256:off+512])
+	copy(out[off+256:off+512], b[off:off+256])
+	return out
 }
 
 // ---------------------------------------------------------------- C18
